@@ -137,6 +137,40 @@ class Gen:
         init = f"int {it} = 0" if decl else f"{it} = 0"
         return ("for", init, f"{it} < {guard}", f"{it}++", self.body(depth), it, guard, decl)
 
+    def chain_loop(self):
+        """a loop whose body closes a dependency chain / rotation of the variables, backwards or forwards, mixing copies,
+        binary operations and if/else alternatives (shapes on which the closure needs many iterations)"""
+        vs = list(self.vars)
+        self.r.shuffle(vs)
+        k = len(vs)
+        shape = self.r.choice(["rotate", "backward", "forward"])
+        if shape == "rotate":
+            pairs = [(vs[i], vs[i - 1]) for i in range(k - 1, 0, -1)] + [(vs[0], vs[k - 1])]
+        elif shape == "backward":
+            pairs = [(vs[i], vs[i - 1]) for i in range(k - 1, 0, -1)]
+        else:
+            pairs = [(vs[i], vs[i - 1]) for i in range(1, k)]
+        body = []
+        for x, y in pairs:
+            r = self.r.random()
+            def heavy():
+                if self.sites >= self.c.max_sites:
+                    return ("s", f"{x} = {y};")
+                self.sites += 1
+                z = self.r.choice([y] + vs)
+                return ("s", f"{x} = {y} {self.r.choice(['+', '*'])} {z};")
+            if r < 0.35:
+                body.append(("s", f"{x} = {y};"))
+            elif r < 0.7:
+                body.append(heavy())
+            else:
+                body.append(("if", self.cond(), ("block", [heavy()]), ("block", [("s", f"{x} = {self.r.choice(vs)};")])))
+        if self.r.random() < 0.5 and self.c.fors:
+            self.fresh += 1
+            it, guard = f"i{self.fresh}", f"n{self.fresh}"
+            return ("for", f"{it} = 0", f"{it} < {guard}", f"{it}++", ("block", body), it, guard, False)
+        return ("while", self.cond(), ("block", body))
+
     def program(self):
         n = self.r.randrange(1, self.c.max_stmts + 1)
         b = self.c.bias
@@ -146,6 +180,8 @@ class Gen:
             ss += [self.loop(0), self.loop(0)]
         elif b == "two-loops":
             ss += [self.loop(0), self.stmt(0), self.loop(0)]
+        elif b == "chain-loop":
+            ss += [self.chain_loop()]
         elif b == "loops-in-branches":
             ss += [("if", self.cond(), ("block", [self.stmt(1), self.loop(1)]), ("block", [self.loop(1), self.stmt(1)]))]
             ss += [self.loop(0)]
